@@ -1,4 +1,4 @@
-import Pymeeus.Refine.VsopDeriv
+import Pymeeus.Refine.SunEarth
 import Pymeeus.Gen.R.VsopPlanets
 import Mathlib.Analysis.Real.Pi.Bounds
 /-
@@ -16,7 +16,7 @@ extremes, agreement with the Kepler motion of the mean elements.
 -/
 noncomputable section
 namespace Pymeeus.C07
-open Pymeeus Pymeeus.PR Pymeeus.GenR Pymeeus.GenR.Helio Pymeeus.Refine.Vsop Pymeeus.Tables
+open Pymeeus Pymeeus.PR Pymeeus.GenR Pymeeus.GenR.Helio Pymeeus.Refine.Vsop Pymeeus.Refine.SunEarth Pymeeus.Tables
 
 /-! ## The evaluator -/
 
@@ -112,12 +112,13 @@ theorem fk5_size (jde lon lat : ℝ) :
     exact mul_le_mul_of_nonneg_left (hcs' lp) (by norm_num)
 
 /-- `geometric_vsop_pos` is `vsop_pos` when `tofk5` is false, and `vsop_pos` with the two corrections
-    added (as `Angle` sums) when it is true; the radius vector is never touched. -/
+    added (as `Angle` sums, the longitude brought back to [0, 360) by `to_positive`) when it is true; the
+    radius vector is never touched. -/
 theorem geometric_structure (jde : ℝ) (L B R : VsopTable) (lon lat r : ℝ)
     (h : vsop_pos jde L B R = .ok (lon, lat, r)) :
     geometric_vsop_pos jde L B R false = .ok (lon, lat, r) ∧
     geometric_vsop_pos jde L B R true =
-      .ok (angAdd lon (fk5_deltas jde lon lat).1, angAdd lat (fk5_deltas jde lon lat).2, r) := by
+      .ok (angToPositive (angAdd lon (fk5_deltas jde lon lat).1), angAdd lat (fk5_deltas jde lon lat).2, r) := by
   simp [geometric_vsop_pos, h, fk5_correction]
 
 /-- "the … aberration corrections have their documented size": `apparent_vsop_pos` adds (after the
@@ -126,7 +127,8 @@ theorem geometric_structure (jde : ℝ) (L B R : VsopTable) (lon lat r : ℝ)
 theorem aberration_term (jde : ℝ) (L B R : VsopTable) (nut : Bool) (lon lat r : ℝ)
     (h : geometric_vsop_pos jde L B R true = .ok (lon, lat, r)) (hr : 20.4898 / 1296000 < r) :
     apparent_vsop_pos jde L B R nut =
-      .ok (angAdd (if nut then angAdd lon (nutation_longitude jde) else lon) (-20.4898 / r / 3600), lat, r) := by
+      .ok (angToPositive (angAdd (if nut then angAdd lon (nutation_longitude jde) else lon) (-20.4898 / r / 3600)),
+        lat, r) := by
   have hr0 : (0 : ℝ) < r := lt_trans (by norm_num) hr
   have hne : r ≠ 0 := ne_of_gt hr0
   have habs : |(-20.4898 : ℝ) / r| < 1296000 := by
@@ -148,13 +150,24 @@ theorem aberration_zero_radius (jde : ℝ) (L B R : VsopTable) (nut : Bool) (lon
   unfold apparent_vsop_pos
   simp [h, peq, lit0]
 
-/-! ## The longitude after the corrections is NOT kept in [0, 360)  (defect candidate) -/
+/-! ## The longitude after the corrections stays in [0, 360) -/
 
-/-- "the heliocentric longitude is in [0, 360)" is FALSE for `geometric_vsop_pos(…, tofk5=True)`:
-    the FK5 correction is added after `to_positive()` and the sum is not brought back to [0, 360).
-    Witness: a longitude series that evaluates to 0 at J2000.0 gives `lon = −0.09033″ < 0`. -/
-theorem geometric_lon_range_counterexample :
-    ∃ lon lat r, geometric_vsop_pos 2451545 zeroTable zeroTable zeroTable true = .ok (lon, lat, r) ∧ lon < 0 := by
+/-- "the heliocentric longitude is in [0, 360)" — also after the FK5 correction and after the aberration /
+    nutation corrections, for every table, every epoch and both values of the `tofk5` / `nutation` options
+    (since the repair "VSOP87 longitudes stay in [0, 360) after the FK5 and aberration corrections": the
+    sum is passed through `to_positive`); the latitude stays in (−360, 360). -/
+theorem corrected_lon_range (jde : ℝ) (L B R : VsopTable) (f : Bool) (lon lat r : ℝ)
+    (h : geometric_vsop_pos jde L B R f = .ok (lon, lat, r) ∨ apparent_vsop_pos jde L B R f = .ok (lon, lat, r)) :
+    0 ≤ lon ∧ lon < 360 ∧ -360 < lat ∧ lat < 360 := by
+  rcases h with h | h
+  · exact geometric_range jde L B R f lon lat r h
+  · exact apparent_range jde L B R f lon lat r h
+
+/-- The case that used to go wrong: a longitude series that evaluates to 0 at J2000.0 now gives
+    `360° − 0.09033″`, not `−0.09033″`. -/
+theorem corrected_lon_at_zero :
+    ∃ lon lat r, geometric_vsop_pos 2451545 zeroTable zeroTable zeroTable true = .ok (lon, lat, r) ∧
+      lon = 360 - 0.09033 / 3600 := by
   have hs : ∀ t : ℝ, vsop_coord zeroTable t = 0 := by
     intro t; rw [vsop_coord_eq]; simp [Spec.directSum, Spec.seriesDirect, zeroTable]
   have hv : vsop_pos 2451545 zeroTable zeroTable zeroTable = .ok (0, 0, 0) := by
@@ -171,47 +184,8 @@ theorem geometric_lon_range_counterexample :
     exact angReduce_small _ (by norm_num [abs_of_neg])
   refine ⟨_, _, _, (geometric_structure 2451545 zeroTable zeroTable zeroTable 0 0 0 hv).2, ?_⟩
   rw [hd, angAdd, zero_add, angReduce_small _ (by norm_num [abs_of_neg])]
-  norm_num
-
-/-- What does hold after the corrections (partial form of the range clause): longitude and latitude of
-    `geometric_vsop_pos` and `apparent_vsop_pos` are in (−360, 360).  MISSING with respect to the
-    property: `0 ≤ lon` (false, see `geometric_lon_range_counterexample`; the implementation returns
-    e.g. −2.59e-05° for Mercury at JDE 2864236.979160846). -/
-theorem corrected_ranges_partial (jde : ℝ) (L B R : VsopTable) (f : Bool) (lon lat r : ℝ)
-    (h : geometric_vsop_pos jde L B R f = .ok (lon, lat, r) ∨ apparent_vsop_pos jde L B R f = .ok (lon, lat, r)) :
-    -360 < lon ∧ lon < 360 ∧ -360 < lat ∧ lat < 360 := by
-  have red : ∀ x : ℝ, -360 < angReduce x ∧ angReduce x < 360 := fun x => abs_lt.mp (angReduce_abs x).1
-  have geo : ∀ (f : Bool) (lon lat r : ℝ), geometric_vsop_pos jde L B R f = .ok (lon, lat, r) →
-      -360 < lon ∧ lon < 360 ∧ -360 < lat ∧ lat < 360 := by
-    intro f lon lat r hg
-    unfold geometric_vsop_pos at hg
-    cases hv : vsop_pos jde L B R with
-    | error e => simp [hv] at hg
-    | ok p =>
-      obtain ⟨l0, b0, r0⟩ := p
-      have hr := vsop_pos_ranges jde L B R l0 b0 r0 hv
-      cases f
-      · simp only [hv, Bool.false_eq_true, if_false, Except.ok.injEq, Prod.mk.injEq] at hg
-        obtain ⟨rfl, rfl, _⟩ := hg
-        exact ⟨by linarith [hr.1], hr.2.1, hr.2.2.1, hr.2.2.2⟩
-      · simp only [hv, if_true, fk5_correction, Except.ok.injEq, Prod.mk.injEq] at hg
-        obtain ⟨rfl, rfl, _⟩ := hg
-        exact ⟨(red _).1, (red _).2, (red _).1, (red _).2⟩
-  rcases h with h | h
-  · exact geo f lon lat r h
-  · unfold apparent_vsop_pos at h
-    cases hg : geometric_vsop_pos jde L B R true with
-    | error e => simp [hg] at h
-    | ok p =>
-      obtain ⟨l0, b0, r0⟩ := p
-      have hr := geo true l0 b0 r0 hg
-      simp only [hg] at h
-      split_ifs at h
-      all_goals
-        simp only [Except.ok.injEq, Prod.mk.injEq] at h
-        obtain ⟨rfl, rfl, _⟩ := h
-        exact ⟨(red _).1, (red _).2, hr.2.2.1, hr.2.2.2⟩
-
+  unfold angToPositive
+  norm_num [plt, ple, pabs, abs_of_neg]
 
 /-! ## Per planet, from the generated tables -/
 
@@ -366,12 +340,12 @@ theorem lon_increasing_neptune : StrictMonoOn (Spec.directSum Neptune_VSOP87_L) 
 theorem planets_defined (jde : ℝ) (f : Bool) :
     ∀ p ∈ ["Mercury", "Venus", "Earth", "Mars", "Jupiter", "Saturn", "Uranus", "Neptune"],
       ∃ lon lat r, planet_geometric_heliocentric_position p jde f = .ok (lon, lat, r) ∧
-        -360 < lon ∧ lon < 360 ∧ -360 < lat ∧ lat < 360 := by
+        0 ≤ lon ∧ lon < 360 ∧ -360 < lat ∧ lat < 360 := by
   have key : ∀ (L B R : VsopTable), L ≠ [] → B ≠ [] → R ≠ [] →
-      ∃ lon lat r, geometric_vsop_pos jde L B R f = .ok (lon, lat, r) ∧ -360 < lon ∧ lon < 360 ∧ -360 < lat ∧ lat < 360 := by
+      ∃ lon lat r, geometric_vsop_pos jde L B R f = .ok (lon, lat, r) ∧ 0 ≤ lon ∧ lon < 360 ∧ -360 < lat ∧ lat < 360 := by
     intro L B R hL hB hR
     cases hg : geometric_vsop_pos jde L B R f with
-    | ok q => exact ⟨q.1, q.2.1, q.2.2, rfl, corrected_ranges_partial jde L B R f q.1 q.2.1 q.2.2 (Or.inl hg)⟩
+    | ok q => exact ⟨q.1, q.2.1, q.2.2, rfl, corrected_lon_range jde L B R f q.1 q.2.1 q.2.2 (Or.inl hg)⟩
     | error e =>
       exfalso
       have hv : ∃ e, vsop_pos jde L B R = .error e := by
